@@ -718,7 +718,7 @@ def tree_case(ctx, i):
     for s, v in res.items():
       o = outcome(lambda: KeyPath.parse(s))
       if not isinstance(s, str) or o[0] == 'raise':
-        bad('visit-path', entry, f'result key {s!r} does not parse')
+        bad('visit-path', family(entry), f'{entry}: result key {s!r} does not parse')
         continue
       log.append((o[1], v, Ellipsis))
     check_log(ctx, bad, entry, root, log, {t: expected[t] for t in exp_keys})
@@ -726,11 +726,6 @@ def tree_case(ctx, i):
   topmost = lambda sel: {t for t in sel
                          if not any(tk(expected[t][0][:n]) in sel
                                     for n in range(len(expected[t][0])))}
-  ctx.label = 'pg.query'
-  if not strings_ok:
-    c['skipped_printed_path_checks'] += 1
-    return
-  check_query('pg.query[all]', pg.query(root, enter_selected=True), set(expected))
   pred = rng.choice([
       ('int', lambda v: isinstance(v, int) and not isinstance(v, bool)),
       ('str', lambda v: isinstance(v, str)),
@@ -738,21 +733,26 @@ def tree_case(ctx, i):
       ('container', lambda v: isinstance(v, (dict, list, pg.Object))),
       ('none', lambda v: v is None)])[1]
   sel = {t for t, (keys, node) in expected.items() if pred(node)}
-  check_query('pg.query[where,enter]', pg.query(root, where=pred, enter_selected=True), sel)
-  check_query('pg.query[where]', pg.query(root, where=pred), topmost(sel))
-  check_query('pg.query[where2]', pg.query(root, where=lambda v, p: pred(v)), topmost(sel))
   chosen = {tk(keys) for keys, _ in rng.sample(pos, min(len(pos), rng.randint(1, 4)))}
-  check_query('pg.query[custom_selector]',
-              pg.query(root, custom_selector=lambda k, v: tk(k.keys) in chosen),
-              topmost(chosen))
-  check_query('pg.query[custom_selector3]',
-              pg.query(root, custom_selector=lambda k, v, p: tk(k.keys) in chosen,
-                       enter_selected=True), chosen)
   tkeys, tnode = expected[rng.choice(sorted(chosen))]
-  check_query('pg.query[path_regex]',
-              pg.query(root, path_regex=re.escape(printed[tk(tkeys)]) + r'\Z',
-                       enter_selected=True), {tk(tkeys)})
-  ctx.label = None
+  if strings_ok:
+    ctx.label = 'pg.query'
+    check_query('pg.query[all]', pg.query(root, enter_selected=True), set(expected))
+    check_query('pg.query[where,enter]', pg.query(root, where=pred, enter_selected=True), sel)
+    check_query('pg.query[where]', pg.query(root, where=pred), topmost(sel))
+    check_query('pg.query[where2]', pg.query(root, where=lambda v, p: pred(v)), topmost(sel))
+    check_query('pg.query[custom_selector]',
+                pg.query(root, custom_selector=lambda k, v: tk(k.keys) in chosen),
+                topmost(chosen))
+    check_query('pg.query[custom_selector3]',
+                pg.query(root, custom_selector=lambda k, v, p: tk(k.keys) in chosen,
+                         enter_selected=True), chosen)
+    check_query('pg.query[path_regex]',
+                pg.query(root, path_regex=re.escape(printed[tk(tkeys)]) + r'\Z',
+                         enter_selected=True), {tk(tkeys)})
+    ctx.label = None
+  else:
+    c['skipped_printed_path_checks'] += 1
 
   # -- sym_descendants --------------------------------------------------------
   if is_sym:
@@ -768,10 +768,11 @@ def tree_case(ctx, i):
         for x in got:
           hv[id(x)] = hv.get(id(x), 0) + 1
         missing = [ks_ for n, kss in ids.items() if hv.get(n, 0) < len(kss) for ks_ in kss]
+        missing.sort(key=len)      # topmost first
         clause = 'visit-missing' if missing else 'visit-duplicate'
         par = ('/' + cls_name(nav(root, missing[0][:-1]))) if missing else ''
-        bad(clause, entry + par, f'expected {len(want)} nodes, got {len(have)}; '
-            f'positions concerned: {missing[:4]!r}')
+        bad(clause, family(entry) + par, f'{entry}: expected {len(want)} nodes, got '
+            f'{len(have)}; positions concerned: {missing[:4]!r}')
     strict = set(expected) - {tk(())}
     ctx.label = 'sym_descendants'
     check_desc('sym_descendants[ALL]', root.sym_descendants(), strict)
@@ -795,7 +796,7 @@ def tree_case(ctx, i):
       return True
     return any(int_dict_key(ch) for _, ch in children(dn))
 
-  if d['t'] in 'DL' and not int_dict_key(d):
+  if d['t'] in 'DL' and not int_dict_key(d) and strings_ok:
     def leaves(dn, prefix=()):
       if dn['t'] in 'DL' and dn['items']:
         out = []
@@ -806,28 +807,32 @@ def tree_case(ctx, i):
     c['flatten_inverse'] += 1
     want = to_plain(root)
     o = outcome(lambda: pg.utils.flatten(root, flatten_complex_keys=False))
+    exp_leaves = leaves(d)
+    flat_problem = None
     if o[0] == 'raise':
-      bad('flatten-inverse', 'flatten', f'flatten raised {o[1]!r}')
+      flat_problem = f'flatten raised {o[1]!r}'
     else:
       flat = o[1]
-      exp_leaves = leaves(d)
       if not (isinstance(flat, dict) and all(isinstance(k, str) for k in flat)
               and len(flat) == len(exp_leaves)):
-        bad('flatten-inverse', 'flatten', f'{len(exp_leaves)} leaf positions, flattened '
-            f'form {flat!r:.300}')
+        flat_problem = f'{len(exp_leaves)} leaf positions, flattened form {flat!r:.300}'
       else:
         for keys in exp_leaves:
-          s = str(KeyPath(list(keys)))
+          s = printed[tk(keys)]
           if s not in flat or flat[s] is not expected[tk(keys)][1]:
-            bad('flatten-inverse', 'flatten', f'leaf {show(keys)} is not under key {s!r}')
+            flat_problem = f'leaf {show(keys)} is not under key {s!r} of {flat!r:.300}'
             break
+    if flat_problem:
+      # the flattened form itself is wrong: canonicalize is not asked
+      bad('flatten-inverse', 'flatten', flat_problem)
+    else:
       o2 = outcome(lambda: pg.utils.canonicalize(flat))
       if o2[0] == 'raise':
         bad('flatten-inverse', 'canonicalize', f'canonicalize raised {o2[1]!r} on {flat!r:.300}')
       elif not same(to_plain(o2[1]), want):
         bad('flatten-inverse', 'canonicalize', f'flat={flat!r:.400}\nback={o2[1]!r:.400}')
-      if not any(isinstance(k, str) and any(ch in k for ch in SPECIAL)
-                 for keys in exp_leaves for k in keys):
+      elif not any(isinstance(k, str) and any(ch in k for ch in SPECIAL)
+                   for keys in exp_leaves for k in keys):
         c['flatten_inverse'] += 1
         o3 = outcome(lambda: pg.utils.canonicalize(pg.utils.flatten(root)))
         if o3[0] == 'raise' or not same(to_plain(o3[1]), want):
@@ -877,6 +882,13 @@ def rebind_case(ctx, i):
   if root is None:
     return
   pos = positions(d)
+  # rebind(fn) addresses its updates through printed paths
+  reported = []
+  once = lambda cl, m, dt: reported or (reported.append(1), ctx.violation(
+      cl, m, f'value={show_desc(d)[:800]}\n{dt}', {'value': show_desc(d)}))
+  if any(printable(ctx, keys, once) is None for keys, _ in pos):
+    c['skipped_printed_path_checks'] += 1
+    return
   before = {tk(keys): (keys, nav(root, keys)) for keys, _ in pos}
   cands = [keys for keys, _ in pos if keys]
   n_sel = 0 if rng.random() < 0.1 else rng.randint(1, 4)
@@ -982,13 +994,18 @@ def set_history(ctx, i, flags):
   def gen_paths():
     return {tk(p): p for p in [gen_path() for _ in range(rng.randint(0, 5))]}
 
+  reported = []
+
   def as_arg(keys):
-    """A path as KeyPath, printed string or bare int."""
+    """A path as KeyPath, printed string (when it round-trips) or bare int."""
     r = rng.random()
     if len(keys) == 1 and isinstance(keys[0], int) and r < 0.3:
       return keys[0]
     if r < 0.3:
-      return str(KeyPath(list(keys)))
+      once = lambda cl, m, dt: reported or (reported.append(1), ctx.violation(cl, m, dt, case))
+      s = printable(ctx, keys, once)
+      if s is not None:
+        return s
     return KeyPath(list(keys))
 
   trace = []
@@ -1014,9 +1031,18 @@ def set_history(ctx, i, flags):
                 KeyPathSet(iter(vals)))
   ctx.label = None
 
-  def check_state(mech, s, m, full=True):
-    """Returns True when the set agrees with its model on every read path."""
+  def check_state(mech, s, m, full=True, operand=False):
+    """Returns True when the set agrees with its model on every read path.
+
+    operand=True: `s` is an operand that the operation must leave unchanged."""
     c['set_state_checks'] += 1
+    if operand:
+      report = lambda clause, mech, detail: bad('set-operand-changed', mech, detail)
+    else:
+      report = bad
+    return state_ok(report, mech, s, m, full)
+
+  def state_ok(bad, mech, s, m, full):  # pylint: disable=redefined-outer-name
     o = outcome(lambda: list(s))
     if o[0] == 'raise':
       bad('set-contents', mech, f'iteration raised {o[1]!r}')
@@ -1086,7 +1112,7 @@ def set_history(ctx, i, flags):
     if op in ('add', 'remove'):
       p = rng.choice(list(m.values())) if m and rng.random() < 0.5 else gen_path()
       arg = as_arg(p)
-      trace.append(f's{a}.{op}({arg!r})')
+      trace.append(f's{a}.{op}({type(arg).__name__} {show(p)})')
       exp = (tk(p) not in m) if op == 'add' else (tk(p) in m)
       if op == 'add':
         m[tk(p)] = p
@@ -1127,14 +1153,14 @@ def set_history(ctx, i, flags):
       else:
         # operands first (they must be unchanged), then the result
         for j in sorted({a, b}):
-          if not check_state(mech + '[operand]', sets[j], models[j], full=False):
+          if not check_state(mech, sets[j], models[j], full=False, operand=True):
             heal(j)
         sets[dst], models[dst] = got[1], nm
         a = dst
     elif op == 'rebase':
       root = gen_path(2)
       arg = as_arg(root)
-      trace.append(f's{a}.rebase({arg!r})')
+      trace.append(f's{a}.rebase({type(arg).__name__} {show(root)})')
       models[a] = {tk(root + p): root + p for p in m.values()}
       got = outcome(lambda: s.rebase(arg))
       if got[0] == 'raise':
@@ -1150,7 +1176,7 @@ def set_history(ctx, i, flags):
         bad('set-result', mech, f'returned {got!r}')
         result_ok = False
       else:
-        if not check_state(mech + '[operand]', s, m, full=False):
+        if not check_state(mech, s, m, full=False, operand=True):
           heal(a)
         sets[dst], models[dst] = got[1], nm
         a = dst
@@ -1164,7 +1190,7 @@ def set_history(ctx, i, flags):
         p = gen_path()
         cp.add(KeyPath(list(p)))
         models[dst][tk(p)] = p
-        if not check_state(mech + '[operand]', s, m, full=False):
+        if not check_state(mech, s, m, full=False, operand=True):
           heal(a)
         a = dst
     elif op == 'clear':
@@ -1173,7 +1199,7 @@ def set_history(ctx, i, flags):
       s.clear()
     else:
       vals = [as_arg(p) for p in m.values()]
-      trace.append(f's{a} = KeyPathSet.from_value({vals!r})')
+      trace.append(f's{a} = KeyPathSet.from_value(<{len(vals)} paths of s{a}>)')
       sets[a] = KeyPathSet.from_value(rng.choice([list, tuple])(vals))
       if KeyPathSet.from_value(sets[a]) is not sets[a]:
         bad('set-result', mech, 'from_value(KeyPathSet) is not the set itself')
@@ -1181,7 +1207,7 @@ def set_history(ctx, i, flags):
     ok = result_ok and check_state(mech, sets[a], models[a])
     # the other operand of an in-place binary operation stays as it was
     if op in ('update', 'difference_update', 'intersection_update'):
-      if not check_state(mech + '[operand]', sets[b], models[b], full=False):
+      if not check_state(mech, sets[b], models[b], full=False, operand=True):
         heal(b)
     if not ok:
       heal(a)
